@@ -3,6 +3,7 @@ package main
 import (
 	"fmt"
 	"go/token"
+	"go/types"
 	"strings"
 
 	"golang.org/x/tools/go/ssa"
@@ -33,6 +34,8 @@ func runC02(c *Ctx) {
 	c.Rule("C02.R7", "timer callbacks: reuse off -> cleaned check -> generation check -> CAS -> handler", 2)
 	c.Rule("C02.R8", "stream buffers recycled only when reuse is enabled and no side was reset", 2)
 	c.Rule("C02.R9", "every decoded frame gets its own stream-level context (no reuse after a dropped frame)", 2)
+	c.Rule("C02.R10", "recycled per-stream buffer contexts are wiped completely", 5)
+	defer c02WipedBuffers(c)
 	defer c02FreshContext(c)
 	c.NotDecided = append(c.NotDecided, "behaviour under concrete interleavings (only the structure that makes misdelivery impossible under lock/atomic semantics)", "HTTP/2 stream-id correlation (x/net fork)", "id counter wrap-around collisions with still-pending ids")
 	c.Assumptions = append(c.Assumptions, "sync.Mutex / sync/atomic semantics", "the read loop of a connection is single-threaded (one Dispatch at a time per connection)")
@@ -434,4 +437,94 @@ func c02FreshContext(c *Ctx) {
 		}
 	}
 	c.Check("C02.R9", fk+":decode-uses-current-context", d.Pos(), okGet, "Decode receives the context obtained from ctxManager.Get() in this iteration", "Decode is not given the context obtained in this iteration")
+}
+
+// c02WipedBuffers (R10): per-stream buffer contexts are wiped when they are recycled.
+// The request path keeps its per-stream objects (downStream/upstreamRequest, http streams and fasthttp request/response,
+// xprotocol streams, bolt/boltv2 frame models) in buffer-pool contexts; decoders and streams only overwrite the parts a
+// new exchange uses. Clause: every Reset(i) of a BufferPoolCtx implementation on the request path returns the object to
+// its zero state: a whole-value store of the zero value, or, field by field, a zero store or a Reset() call on the field.
+func c02WipedBuffers(c *Ctx) {
+	pkgs := []string{"pkg/proxy", "pkg/stream/http", "pkg/stream/xprotocol", "pkg/protocol/xprotocol/bolt", "pkg/protocol/xprotocol/boltv2"}
+	n := 0
+	for _, pkg := range pkgs {
+		for _, fn := range c.PkgFuncs(pkg) {
+			if fn.Name() != "Reset" || fn.Signature.Recv() == nil || len(fn.Params) != 2 || !strings.HasSuffix(typeName(fn.Signature.Recv().Type()), "BufferCtx") {
+				continue
+			}
+			// the object: i.(*T)
+			var obj ssa.Value
+			var st *types.Struct
+			forEachInstr(fn, false, func(_ *ssa.Function, in ssa.Instruction) {
+				if ta, ok := in.(*ssa.TypeAssert); ok && ta.X == ssa.Value(fn.Params[1]) {
+					if s := derefStruct(ta.AssertedType); s != nil {
+						st = s
+						obj = ta
+					}
+				}
+			})
+			if st == nil {
+				c.Unresolved("C02.R10", funcKey(fn)+": asserted buffer type")
+				continue
+			}
+			n++
+			// obj may be the comma-ok tuple: use its #0 extract
+			ptrs := map[ssa.Value]bool{obj: true}
+			for _, r := range refs(obj) {
+				if ex, ok := r.(*ssa.Extract); ok && ex.Index == 0 {
+					ptrs[ex] = true
+				}
+			}
+			whole := false
+			covered := map[string]bool{}
+			forEachInstr(fn, false, func(_ *ssa.Function, in ssa.Instruction) {
+				switch x := in.(type) {
+				case *ssa.Store:
+					if ptrs[x.Addr] && isZeroAggregate(x.Val) {
+						whole = true
+					}
+					if fa, ok := x.Addr.(*ssa.FieldAddr); ok && ptrs[fa.X] && (isZeroAggregate(x.Val) || isZeroValue(x.Val)) {
+						covered[st.Field(fa.Field).Name()] = true
+					}
+				case *ssa.Call:
+					if methodName(x.Common()) == "Reset" && len(x.Call.Args) > 0 {
+						if fa, ok := x.Call.Args[0].(*ssa.FieldAddr); ok && ptrs[fa.X] {
+							covered[st.Field(fa.Field).Name()] = true
+						}
+					}
+				}
+			})
+			var missing []string
+			if !whole {
+				for i := 0; i < st.NumFields(); i++ {
+					if !covered[st.Field(i).Name()] {
+						missing = append(missing, st.Field(i).Name())
+					}
+				}
+			}
+			c.Check("C02.R10", funcKey(fn)+":wipes-everything", fn.Pos(), whole || len(missing) == 0, "the recycled object is returned to its zero state", "the per-stream buffer object is recycled without wiping "+strings.Join(missing, ",")+": the next request that gets this object sees the previous exchange's data")
+		}
+	}
+	if n < 5 {
+		c.Unresolved("C02.R10", fmt.Sprintf("BufferPoolCtx Reset implementations on the request path (found %d)", n))
+	}
+}
+
+func isZeroAggregate(v ssa.Value) bool {
+	if k, ok := v.(*ssa.Const); ok && k.Value == nil {
+		return true
+	}
+	if ld, ok := v.(*ssa.UnOp); ok && ld.Op == token.MUL {
+		if al, ok := ld.X.(*ssa.Alloc); ok {
+			for _, r := range refs(al) {
+				switch r.(type) {
+				case *ssa.UnOp, *ssa.DebugRef:
+				default:
+					return false
+				}
+			}
+			return true
+		}
+	}
+	return false
 }
